@@ -134,7 +134,7 @@ def check(ctx):
             clo = cw[0][3][2]
             cps = closure_paths(ctx, clo) if clo[0] == "agg" and clo[1] == "closure" else None
             r0 = peel(cps[0].ret, ()) if cps and len(cps) == 1 else ("unknown",)
-            wproj = r0[0] == "field" and r0[2] == 1 and peel(r0[1], ()) == ("param", 2)
+            wproj = r0[0] == "field" and r0[2] == 1 and peel(r0[1], ())[:2] == ("cparam", 2)
             ctx.check(wproj, "R13.4", "DynWeighted/weight-projection-is-tuple-field-1", short(cps[0].ret) if cps else "-", f.at(),
                       bad_detail="the weight closure must return the entry's second component; extracted " + (short(cps[0].ret, 6) if cps else "no closure"))
             chosen = sel[0][3][0]
